@@ -44,6 +44,7 @@ type specEnv struct {
 	letDepth int
 	quant   int
 	loopEntry *State
+	atFresh map[string]sval
 }
 
 type specErr string
@@ -176,13 +177,23 @@ func (env *specEnv) resolveType(text string) types.Type {
 
 func (env *specEnv) findPkg(name string) *types.Package {
 	if env.pkg != nil {
+		// well-known import aliases first (v1 is ambiguous by package name)
+		for _, imp := range env.pkg.Imports() {
+			if aliasMatches(name, imp.Path()) {
+				return imp
+			}
+		}
 		for _, imp := range env.pkg.Imports() {
 			if imp.Name() == name {
 				return imp
 			}
 		}
-		// import aliases: match on last path element or common aliases
-		for _, imp := range env.pkg.Imports() {
+	}
+	for _, p := range env.eng.prog.Pkgs {
+		if aliasMatches(name, p.PkgPath) {
+			return p.Types
+		}
+		for _, imp := range p.Types.Imports() {
 			if aliasMatches(name, imp.Path()) {
 				return imp
 			}
@@ -265,7 +276,10 @@ func (env *specEnv) lookupIdent(name string) (sval, bool) {
 	}
 	// source-level local of the frame (unique SSA value)
 	if env.fr != nil {
-		if v, ok := env.fr.srcNames[name]; ok {
+		if v, ok := env.fr.srcValue(name); ok {
+			if _, isConst := v.(*ssa.Const); isConst {
+				return sval{t: env.fr.val(v), typ: v.Type()}, true
+			}
 			if t, ok := env.fr.vals[v]; ok && !strings.HasPrefix(t, "tuple:") {
 				return sval{t: t, typ: v.Type()}, true
 			}
@@ -282,15 +296,10 @@ func (env *specEnv) lookupIdent(name string) (sval, bool) {
 				return sval{t: vc.constTerm(o.Val(), o.Type()), typ: o.Type()}, true
 			case *types.Var:
 				if sp := env.eng.prog.SPkgs[env.pkg.Path()]; sp != nil {
-					if g, ok := sp.Members[name].(*ssa.Global); ok && env.fr != nil {
-						return env.deref(sval{t: env.fr.val(g), typ: g.Type()}), true
+					if g, ok := sp.Members[name].(*ssa.Global); ok {
+						return env.deref(sval{t: env.eng.topFrame.val(g), typ: g.Type()}), true
 					}
 				}
-			}
-		}
-		for _, imp := range env.pkg.Imports() {
-			if imp.Name() == name {
-				return sval{pkg: imp}, true
 			}
 		}
 	}
@@ -423,9 +432,9 @@ func (env *specEnv) eval(e Expr) sval {
 			case *types.Const:
 				return sval{t: vc.constTerm(o.Val(), o.Type()), typ: o.Type()}
 			case *types.Var:
-				if sp := eng.prog.SPkgs[x.pkg.Path()]; sp != nil && env.fr != nil {
+				if sp := eng.prog.SPkgs[x.pkg.Path()]; sp != nil {
 					if g, ok := sp.Members[e.Name].(*ssa.Global); ok {
-						return env.deref(sval{t: env.fr.val(g), typ: g.Type()})
+						return env.deref(sval{t: eng.topFrame.val(g), typ: g.Type()})
 					}
 				}
 			}
@@ -661,6 +670,15 @@ func (env *specEnv) evalQuant(q *EQuant) sval {
 	}
 	vc.noname++
 	body := env.evalBool(q.Body)
+	var pats []string
+	for _, tr := range q.Triggers {
+		var ts []string
+		for _, te := range tr {
+			v := env.eval(te)
+			ts = append(ts, env.rv(v))
+		}
+		pats = append(pats, ":pattern ("+strings.Join(ts, " ")+")")
+	}
 	vc.noname--
 	for _, v := range q.Vars {
 		env.quant--
@@ -674,6 +692,9 @@ func (env *specEnv) evalQuant(q *EQuant) sval {
 	if q.Forall {
 		k = "forall"
 	}
+	if len(pats) > 0 {
+		body = fmt.Sprintf("(! %s %s)", body, strings.Join(pats, " "))
+	}
 	return sval{t: fmt.Sprintf("(%s (%s) %s)", k, strings.Join(decls, " "), body), typ: tBool}
 }
 
@@ -681,7 +702,51 @@ func (e *Engine) qctr() int { e.qn++; return e.qn }
 
 func (env *specEnv) evalAt(a *EAt) sval {
 	if env.fr == nil {
-		env.fail("@%s: no frame", a.Pat)
+		// contract applied at a call site: the callee-internal call result is some (unknown) value
+		if env.atFresh == nil {
+			env.fail("@%s: no frame", a.Pat)
+		}
+		if v, ok := env.atFresh[a.Pat]; ok {
+			return v
+		}
+		var sig *types.Signature
+		if env.fn != nil {
+			for _, b := range env.fn.Blocks {
+				for _, ins := range b.Instrs {
+					if c, ok := ins.(ssa.CallInstruction); ok {
+						n := ""
+						if c.Common().IsInvoke() {
+							n = ifaceMethodName(c.Common())
+						} else if sc := c.Common().StaticCallee(); sc != nil {
+							n = canonName(sc)
+						}
+						if n != "" && patMatches(a.Pat, n) {
+							sig = c.Common().Signature()
+						}
+					}
+				}
+			}
+		}
+		if sig == nil {
+			env.fail("@%s: no call in %s matches", a.Pat, env.fn)
+		}
+		var tup []sval
+		for i := 0; i < sig.Results().Len(); i++ {
+			t := sig.Results().At(i).Type()
+			saveNN := env.eng.vc.noname
+			env.eng.vc.noname = 0
+			c := env.eng.vc.fresh("at."+sanitizeLit(a.Pat), env.eng.vc.sortOf(t))
+			env.eng.vc.noname = saveNN
+			tup = append(tup, sval{t: c, typ: t})
+		}
+		var v sval
+		if len(tup) == 1 {
+			v = tup[0]
+		} else {
+			v = sval{tup: tup, typ: sig.Results()}
+		}
+		env.atFresh[a.Pat] = v
+		return v
 	}
 	rec := env.fr.findDominatingCall(a.Pat)
 	if rec == nil {
@@ -771,6 +836,44 @@ func (env *specEnv) evalCall(c *ECall) sval {
 			sub.st = env.old
 			v := sub.eval(c.Args[0])
 			return sval{t: sub.rv(v), typ: v.typ}
+		case "atoi_ok", "atoi_val":
+			declAtoi(vc)
+			x := env.eval(c.Args[0])
+			if id.Name == "atoi_ok" {
+				return sval{t: fmt.Sprintf("(atoi_ok %s)", env.rv(x)), typ: tBool}
+			}
+			return sval{t: fmt.Sprintf("(atoi_val %s)", env.rv(x)), typ: tInt}
+		case "itoa":
+			declAtoi(vc)
+			x := env.eval(c.Args[0])
+			return sval{t: fmt.Sprintf("(itoa %s)", env.rv(x)), typ: tString}
+		case "finwit":
+			// finwit(A, B, n): a decimal spelling of n that is in neither of the (finite) Go sets A, B.
+			// Encoder assumption (listed): Atoi accepts leading zeros, so every int has infinitely many spellings.
+			declAtoi(vc)
+			a, b, n := env.eval(c.Args[0]), env.eval(c.Args[1]), env.eval(c.Args[2])
+			mt, ok := a.typ.Underlying().(*types.Map)
+			if !ok {
+				env.fail("finwit needs sets")
+			}
+			d := eng.get(env.st, eng.mapDomComp(mt))
+			da, db := sel(d, env.rv(a)), sel(d, env.rv(b))
+			vc.decl("fn:finwit", "(declare-fun finwit ((Array Str Bool) (Array Str Bool) Int) Str)")
+			w := fmt.Sprintf("(finwit %s %s %s)", da, db, env.rv(n))
+			vc.assume(fmt.Sprintf("(and (atoi_ok %s) (= (atoi_val %s) %s) (not (select %s %s)) (not (select %s %s)))", w, w, env.rv(n), da, w, db, w))
+			vc.assumes["finiteness witness: every integer has a decimal spelling outside any two finite Go sets (Atoi accepts leading zeros)"] = true
+			return sval{t: w, typ: tString}
+		case "anystr":
+			// anystr(A, B): some string that is in neither finite set
+			a, b := env.eval(c.Args[0]), env.eval(c.Args[1])
+			mt := a.typ.Underlying().(*types.Map)
+			d := eng.get(env.st, eng.mapDomComp(mt))
+			da, db := sel(d, env.rv(a)), sel(d, env.rv(b))
+			vc.decl("fn:anystr", "(declare-fun anystr ((Array Str Bool) (Array Str Bool)) Str)")
+			w := fmt.Sprintf("(anystr %s %s)", da, db)
+			vc.assume(fmt.Sprintf("(and (not (select %s %s)) (not (select %s %s)))", da, w, db, w))
+			vc.assumes["finiteness witness: some string lies outside any two finite Go sets"] = true
+			return sval{t: w, typ: tString}
 		case "loopentry":
 			if env.loopEntry == nil {
 				env.fail("loopentry() is only available in loop invariants")
